@@ -3,7 +3,7 @@
 under /verif/seeded/<Cxx>_<name>/.   usage: import_seed.py <out_dir> <Cxx>"""
 import json, os, shutil, subprocess, sys, tempfile
 out, prop = sys.argv[1], sys.argv[2]
-offset = int(sys.argv[3]) if len(sys.argv) > 3 else 0
+offset = int(sys.argv[3]) if len(sys.argv) > 3 and sys.argv[3].isdigit() else 0
 V = os.path.dirname(os.path.dirname(os.path.abspath(__file__)))
 for n in (1, 2, 3):
     patch = os.path.join(out, "patch_%d.diff" % n)
@@ -22,6 +22,18 @@ for n in (1, 2, 3):
         imp = subprocess.run(["/venv/bin/python", "-c", "import deephyper, deephyper.hpo, deephyper.evaluator"], env=env, stdout=subprocess.PIPE, stderr=subprocess.STDOUT, text=True)
         r1 = subprocess.run(["/venv/bin/python", demo], env=env, cwd=out, stdout=subprocess.PIPE, stderr=subprocess.STDOUT, text=True, timeout=900)
         ok = r0.returncode == 0 and r1.returncode != 0 and imp.returncode == 0
+        tests = "test-suite run by the author: %s" % meta.get("tests_run")
+        if ok and "--tests" in sys.argv:
+            # the pinned test command on the patched worktree: every stable test of the baseline must still pass
+            xml = os.path.join(tempfile.gettempdir(), "imp_%s_%d.xml" % (prop, n))
+            subprocess.run(["/venv/bin/python", "-m", "pytest", "-q", "-p", "no:cacheprovider", "--timeout=900", "--continue-on-collection-errors", "--junitxml=" + xml],
+                           env=env, cwd=wt, stdout=subprocess.DEVNULL, stderr=subprocess.DEVNULL, timeout=3000)
+            bc = subprocess.run([sys.executable, os.path.join(V, "tools", "baseline_check.py"), xml], stdout=subprocess.PIPE, text=True)
+            os.unlink(xml)
+            tests = "pinned test command re-run by the coordinator on the patched worktree: " + bc.stdout.strip().replace("\n", "; ")
+            if bc.returncode != 0:
+                ok = False
+                print(prop, n + offset, "TESTS FAIL with the patch:", bc.stdout[-400:])
         print(prop, n + offset, "confirmed" if ok else "NOT CONFIRMED", "demo without=%d with=%d import=%d" % (r0.returncode, r1.returncode, imp.returncode))
         if ok:
             d = os.path.join(V, "seeded", "%s_%d" % (prop, n + offset)); os.makedirs(d, exist_ok=True)
@@ -29,7 +41,7 @@ for n in (1, 2, 3):
             json.dump(dict(property=prop, summary=meta.get("summary"), needs_to_manifest=meta.get("needs_to_manifest"), files_touched=meta.get("files_touched"),
                            author="independent sub-agent given only the property text and a scratch worktree",
                            confirmed=dict(repo_head=subprocess.check_output(["git", "-C", "/repo", "log", "-1", "--format=%h"]).decode().strip(),
-                                          ran="demo.py on a scratch worktree of /repo HEAD: exit %d without the patch, exit %d with it; `import deephyper` ok; test-suite run by the author: %s" % (r0.returncode, r1.returncode, meta.get("tests_run")),
+                                          ran="demo.py on a scratch worktree of /repo HEAD: exit %d without the patch, exit %d with it; `import deephyper` ok; %s" % (r0.returncode, r1.returncode, tests),
                                           demo_output_with_change=r1.stdout[-600:])),
                       open(os.path.join(d, "meta.json"), "w"), indent=1)
     finally:
